@@ -23,7 +23,7 @@ def run(ctx):
         if f[0] == "E":
             _, cid, tid, g, impl, det, rt = f
             evals += 1
-            name = names.get(int(tid), tid)
+            name = "objects.MessageContainer" if tid == "c" else names.get(int(tid), tid)
             m = model.get(cid, "missing")
             ic = T.norm_class(impl)
             if ic.startswith("ok"):
